@@ -3,9 +3,9 @@ from _cfg import *
 
 def variants(key, rng):
     """other spellings of the same key"""
-    if '->' in key: a, b = key.split('->'); return ['%s -> %s' % (a, b), '%s->%s ' % (a, b), ' %s-> %s' % (a, b)]
-    if '-' in key: a, b = key.split('-'); return ['%s - %s' % (a, b), '%s-%s' % (b, a), '%s - %s' % (b, a), ' %s -%s' % (a, b)]
-    if '(' in key: return [key.replace(',', ', '), key.replace('(', ' ('), key.replace(',', ' ,')]
+    if '->' in key: a, b = key.split('->'); return ['%s -> %s' % (a, b), '%s->%s ' % (a, b), ' %s-> %s' % (a, b), '%s\t->\t%s' % (a, b), '%s->\t%s' % (a, b)]
+    if '-' in key: a, b = key.split('-'); return ['%s - %s' % (a, b), '%s-%s' % (b, a), '%s - %s' % (b, a), ' %s -%s' % (a, b), '%s\t-\t%s' % (a, b), '%s\t-%s' % (b, a)]
+    if '(' in key: return [key.replace(',', ', '), key.replace('(', ' ('), key.replace(',', ' ,'), key.replace(',', ',\t'), key.replace('(', '\t(')]
     return [key + ' ', ' ' + key]
 
 def check_case(rep, case, name):
